@@ -27,7 +27,9 @@ LEVEL_TEXT = ('Lean theorems over a transition system of the controller\'s EPR b
               'layer\'s physical ids only. Tie: '
               'differential replay of random and (thorough) exhaustively enumerated schedules on the real Executor '
               'with instruction-granularity yields vs the compiled model, state compared after every action, plus '
-              'a model-free oracle of the six invariants on the executor\'s own fields.')
+              'a model-free oracle of the six invariants plus quiescence (after a delivery or poll no handleable '
+              'response is left pending; a request whose queue received all its responses is retired) on the '
+              'executor\'s own fields; scenarios include both roles on one socket with early-arriving responses.')
 LEVEL_NOTE = ('Trusted: Lean kernel; harness/epr.py (schedule replay, canonicalisation); the hand-written model '
               'Model/Epr.lean is tied to executor.py only by the correspondence stream. Registers and request '
               'decoding are outside this model (C04/C11). Environment assumptions are hypotheses: issuing '
@@ -107,12 +109,19 @@ def run(ctx):
         sc = H.gen_scenario(rng, malformed=mal)
         toks = H.random_schedule(sc, rng)
         _run_case(ctx, res, H, sc, toks, "rnd")
+    # create and receive roles mixed on ONE socket, responses arriving before their instruction ran
+    n_mixed = 8000 if ctx.thorough else 700
+    for i in range(n_mixed):
+        sc = H.gen_scenario(rng, mixed_roles=True)
+        toks = H.random_schedule(sc, rng, early=rng.choice([0, 1, 1, 2, 3]))
+        _run_case(ctx, res, H, sc, toks, "mix")
+        res.count("mixed-roles-one-socket")
     # exhaustive interleavings of small scenarios (one subroutine): every merge of the instruction
     # sequence with the per-queue response sequences; counted as complete when not cut by the cap
     n_small = 45 if ctx.thorough else 6
     cap = 2500 if ctx.thorough else 300
     for i in range(n_small):
-        sc = H.gen_scenario(rng, max_reqs=2, max_pairs=2 if i % 2 else 3, small=True)
+        sc = H.gen_scenario(rng, max_reqs=2, max_pairs=2 if i % 2 else 3, small=True, mixed_roles=(i % 3 == 0))
         k = 0
         for toks in H.exhaustive_schedules(sc, cap):
             _run_case(ctx, res, H, sc, toks, "exh")
